@@ -35,6 +35,14 @@ type KnownFinding struct {
 
 var allPatterns = []string{"./base/...", "./core/...", "./net/...", "./driver/..."}
 
+// repoRoot: the tree under verification (the must-fail corpus of the thorough tier runs on a scratch copy)
+var repoRoot = func() string {
+	if r := os.Getenv("GOVC_REPO"); r != "" {
+		return strings.TrimRight(r, "/")
+	}
+	return "/repo"
+}()
+
 func main() {
 	if len(os.Args) < 2 {
 		fmt.Fprintln(os.Stderr, "usage: govc check|func|lemma ...")
@@ -292,7 +300,7 @@ func runCheck(prop, tier, cfgPath, evDir, knownPath, replayDir string, verbose b
 		}
 		obls = append(obls, r.Obls...)
 		p := vc.fset.Position(fi.Decl.Pos())
-		funcsUnder = append(funcsUnder, map[string]any{"function": name, "file": strings.TrimPrefix(p.Filename, "/repo/"), "line": p.Line, "contract": fi.Con != nil, "obligations": len(r.Obls), "source_hash": fileHash(p.Filename)})
+		funcsUnder = append(funcsUnder, map[string]any{"function": name, "file": strings.TrimPrefix(p.Filename, repoRoot+"/"), "line": p.Line, "contract": fi.Con != nil, "obligations": len(r.Obls), "source_hash": fileHash(p.Filename)})
 	}
 	for _, f := range cfg.Functions {
 		addFunc(f, false)
